@@ -1,9 +1,12 @@
 (* Provenance of diagnostic ranges.  Fix a set S of tokens (below: the tokens of one method body).
    [Dg S p]: run on an input made of S-tokens, from a context whose cache only holds results
    positioned on S-tokens, p stops (or fails) on S-tokens again, keeps the cache invariant, and every
-   diagnostic it adds has a range that STARTS where some S-token starts -- or is the default range
-   0:0-0:0, which the combinators use when the error position is the END of the input
-   (first_range []).  Holds for every parser of the grammar (gram_Dg). *)
+   diagnostic it adds has a range that STARTS where some S-token starts and ENDS where some S-token
+   ends.  There is no exception
+   any more: an error at the very END of the input is reported at the last token of the input the
+   failing item parser was given (err_range), resp. at the separator in front of a missing list item
+   (sep_list_rec), not with the default range 0:0-0:0 (finding eof-diagnostic-at-origin, repaired).
+   Holds for every parser of the grammar (gram_Dg). *)
 From GoldV Require Import Base Tokens Lexer AstKinds Tree Strings PComb Grammar ParserWF GrammarWF GrammarRel.
 From Coq Require Import Lia.
 
@@ -21,7 +24,11 @@ Section Diag.
     forall k n r, cache_find k n (ccache c) = Some r -> res_in r.
 
   Definition diag_ok (d : pdiag) : Prop :=
-    rstart (drange d) = rstart range_default \/ exists t, S t /\ rstart (drange d) = rstart (trange t).
+    (exists t, S t /\ rstart (drange d) = rstart (trange t)) /\
+    (exists t, S t /\ rend (drange d) = rend (trange t)).
+
+  Lemma diag_ok_tok t m : S t -> diag_ok (mkDiag (trange t) m).
+  Proof. intro H. split; exists t; (split; [exact H|reflexivity]). Qed.
 
   Definition news (c c' : ctx) : Prop :=
     exists new, cdiags c' = new ++ cdiags c /\ Forall diag_ok new.
@@ -76,17 +83,29 @@ Section Diag.
   Lemma skip_in i e : Forall S e -> Forall S (skip_after_error i e).
   Proof. intro H. unfold skip_after_error. destruct (ilen e =? ilen i); [apply Forall_tl|]; exact H. Qed.
 
-  Lemma diag_at_ok e m : Forall S e -> diag_ok (diag_at e m).
+  Lemma Forall_last (l : list tok) t : S t -> Forall S l -> S (last l t).
   Proof.
-    intro H. unfold diag_at, diag_ok. cbn [drange]. destruct e as [|t e']; cbn [first_range]; [left; reflexivity|].
-    right. exists t. inversion H; subst. split; [assumption|reflexivity].
+    intros Ht Hl. revert t Ht. induction Hl as [|x l Hx Hl IH]; intros t Ht; [exact Ht|].
+    destruct l as [|y l']; [exact Hx|]. change (S (last (y :: l') t)). apply IH. exact Ht.
   Qed.
 
-  Lemma sep_diag_ok i e m : Forall S i ->
-    diag_ok (mkDiag (new_range (first_range i) match e with [] => first_range i | t :: _ => trange t end) m).
+  (* the iteration input of a recovering loop is never empty *)
+  Lemma diag_at_ok t i e m : Forall S (t :: i) -> Forall S e -> diag_ok (diag_at (t :: i) e m).
   Proof.
-    intro H. unfold diag_ok, new_range. cbn [drange rstart]. destruct i as [|t i']; cbn [first_range]; [left; reflexivity|].
-    right. exists t. inversion H; subst. split; [assumption|reflexivity].
+    intros Hi H. unfold diag_at, err_range. destruct e as [|t' e'].
+    - cbn [last_tok_range]. apply diag_ok_tok. inversion Hi; subst. apply Forall_last; assumption.
+    - apply diag_ok_tok. inversion H; subst. assumption.
+  Qed.
+
+  Lemma sep_diag_ok prev i e m : S prev -> Forall S i -> Forall S e ->
+    diag_ok (mkDiag (new_range (range_or i (trange prev)) (range_or e (range_or i (trange prev)))) m).
+  Proof.
+    intros Hp H He. unfold diag_ok, new_range. cbn [drange rstart rend].
+    assert (exists t, S t /\ range_or i (trange prev) = trange t) as (t0 & H0 & E0).
+    { destruct i as [|t i']; cbn [range_or]; [exists prev; auto|]. exists t. inversion H; subst. auto. }
+    split; [exists t0; rewrite E0; auto|].
+    destruct e as [|t' e']; cbn [range_or]; [exists t0; rewrite E0; auto|].
+    exists t'. inversion He; subst. auto.
   Qed.
 
   Ltac use H i c Hi Hc r c1 R1 C1 N1 :=
@@ -228,29 +247,34 @@ Section Diag.
   Lemma Dg_sep_tokens item sep : Dg (sep_tokens item sep).
   Proof. intros i c Hi Hc. unfold sep_tokens. apply Dg_sep_tokens_go; assumption. Qed.
 
-  Lemma Dg_sep_list_rec {A} (p : P A) sep : Dg p -> forall fuel acc, Dg (sep_list_rec fuel p sep acc).
+  Ltac use_tok ty i c Hi Hc r c1 R1 C1 N1 T1 :=
+    destruct (Dg_exp_token ty i c Hi Hc) as (R1 & C1 & N1);
+    pose proof (fun r t c' => exp_token_returns ty i c r t c' Hi) as T1;
+    destruct (exp_token ty i c) as [r c1]; cbn [fst snd] in R1, C1, N1.
+
+  Lemma Dg_sep_list_rec {A} (p : P A) sep : Dg p -> forall fuel prev acc, S prev -> Dg (sep_list_rec fuel p sep prev acc).
   Proof.
-    intros Hp. induction fuel as [|f IH]; intros acc i c Hi Hc; cbn [sep_list_rec]; [apply post_ret; simpl; auto|].
+    intros Hp. induction fuel as [|f IH]; intros prev acc Hprev i c Hi Hc; cbn [sep_list_rec]; [apply post_ret; simpl; auto|].
     use Hp i c Hi Hc r c1 R1 C1 N1.
     destruct r as [rest a|e m|s|]; apply (post_cont _ _ _ N1); try (apply post_ret; assumption).
-    - use (Dg_exp_token sep) rest c1 R1 C1 r2 c2 R2 C2 N2.
+    - use_tok sep rest c1 R1 C1 r2 c2 R2 C2 N2 T2.
       destruct r2 as [rest2 t2|e2 m2|s|]; apply (post_cont _ _ _ N2); try (apply post_ret; assumption).
-      apply IH; assumption.
-    - set (dg := mkDiag (new_range (first_range i) match e with [] => first_range i | t :: _ => trange t end) m).
-      apply (post_diag _ dg); [apply sep_diag_ok; exact Hi|].
+      apply IH; try assumption. exact (T2 _ _ _ eq_refl).
+    - set (dg := mkDiag (new_range (range_or i (trange prev)) (range_or e (range_or i (trange prev)))) m).
+      apply (post_diag _ dg); [apply sep_diag_ok; assumption|].
       pose proof (CacheS_add_diag dg c1 C1) as C1'.
-      use (Dg_exp_token sep) e (add_diag dg c1) R1 C1' r2 c2 R2 C2 N2.
+      use_tok sep e (add_diag dg c1) R1 C1' r2 c2 R2 C2 N2 T2.
       destruct r2 as [rest2 t2|e2 m2|s|]; apply (post_cont _ _ _ N2); try (apply post_ret; assumption).
-      apply IH; assumption.
+      apply IH; try assumption. exact (T2 _ _ _ eq_refl).
   Qed.
 
   Lemma Dg_sep_list {A} (p : P A) sep : Dg p -> Dg (sep_list p sep).
   Proof.
     intros Hp i c Hi Hc. unfold sep_list. use Hp i c Hi Hc r c1 R1 C1 N1.
     destruct r as [rest a|e m|s|]; apply (post_cont _ _ _ N1); try (apply post_ret; assumption).
-    use (Dg_exp_token sep) rest c1 R1 C1 r2 c2 R2 C2 N2.
+    use_tok sep rest c1 R1 C1 r2 c2 R2 C2 N2 T2.
     destruct r2 as [rest2 t2|e2 m2|s|]; apply (post_cont _ _ _ N2); try (apply post_ret; assumption).
-    apply Dg_sep_list_rec; assumption.
+    apply Dg_sep_list_rec; try assumption. exact (T2 _ _ _ eq_refl).
   Qed.
 
   Lemma Dg_repeat_go {A} (p : P A) : Dg p -> forall fuel acc, Dg (repeat_go fuel p acc).
@@ -260,7 +284,7 @@ Section Diag.
     use Hp (t :: i') c Hi Hc r c1 R1 C1 N1.
     destruct r as [rest a|e m|s|]; apply (post_cont _ _ _ N1); try (apply post_ret; assumption).
     - apply IH; assumption.
-    - apply (post_diag _ (diag_at e m)); [apply diag_at_ok; exact R1|].
+    - apply (post_diag _ (diag_at (t :: i') e m)); [apply diag_at_ok; [exact Hi|exact R1]|].
       apply IH; [apply skip_in; exact R1|apply CacheS_add_diag; exact C1].
   Qed.
 
@@ -276,7 +300,7 @@ Section Diag.
     use Hp (t :: i') c0 Hi C0 r c1 R1 C1 N1.
     destruct r as [rest a|e m|s|]; apply (post_cont _ _ _ N1); try (apply post_ret; assumption).
     - apply IH; assumption.
-    - apply (post_diag _ (diag_at e m)); [apply diag_at_ok; exact R1|].
+    - apply (post_diag _ (diag_at (t :: i') e m)); [apply diag_at_ok; [exact Hi|exact R1]|].
       apply IH; [apply skip_in; exact R1|apply CacheS_add_diag; exact C1].
   Qed.
 
@@ -368,7 +392,7 @@ Section Diag.
         apply IH; assumption.
       + destruct (tt_eqb (tty t) TElse); [apply IH; assumption|apply post_ret; assumption].
     - apply (post_diag _ (mkDiag (trange it) S_no_end_token_found)).
-      + right. exists it. split; [exact Hit|reflexivity].
+      + apply diag_ok_tok. exact Hit.
       + apply IH; [exact Hit|exact R1|apply CacheS_add_diag; exact C1].
   Qed.
 
@@ -424,7 +448,7 @@ Proof.
 Qed.
 
 (* the statements of a method body, parsed on the body's own slice from a cleared cache: every
-   diagnostic starts at a token of the body or is the default range *)
+   diagnostic starts at a token of the body *)
 Theorem body_diags_from_body (g : G) (body : list tok) :
   Dg (fun t => In t body) (g_stmt g) ->
   forall i c, exists new,
